@@ -30,16 +30,6 @@ pub open spec fn qvalue_rfc(s: Seq<u8>) -> Option<u16> {
         else { Some((dec(f) * scale(f.len() as int)) as u16) }
     }
 }
-/// What `parse_qvalue` accepts: every qvalue with its value, nothing else - except the sign the std integer parser
-/// tolerates (`0.+5`, `0.+55`; outside the grammar, where C16 demands nothing; spelled out so that the contract is total).
-pub open spec fn qv_lenient(s: Seq<u8>) -> Option<u16> {
-    match qvalue_rfc(s) {
-        Some(v) => Some(v),
-        None => if 4 <= s.len() <= 5 && s[0] == 0x30u8 && s[1] == 0x2eu8 && s[2] == 0x2bu8 && all_digits(s.subrange(3, s.len() as int)) {
-            Some((dec(s.subrange(3, s.len() as int)) * scale(s.len() - 2)) as u16)
-        } else { None },
-    }
-}
 pub proof fn lemma_dec_small(d: Seq<u8>)
     requires d.len() <= 3, forall|i: int| 0 <= i < d.len() ==> is_digit(#[trigger] d[i])
     ensures dec(d) <= 999, d.len() <= 2 ==> dec(d) <= 99, d.len() <= 1 ==> dec(d) <= 9,
@@ -47,24 +37,22 @@ pub proof fn lemma_dec_small(d: Seq<u8>)
     reveal_with_fuel(dec, 5);
     if d.len() >= 1 { assert(is_digit(d[d.len() - 1])); let d1 = d.drop_last(); if d1.len() >= 1 { assert(d1[d1.len() - 1] == d[d.len() - 2]); assert(is_digit(d[d.len() - 2])); let d2 = d1.drop_last(); if d2.len() >= 1 { assert(d2[0] == d[0]); assert(is_digit(d[0])); assert(d2.drop_last().len() == 0); } } }
 }
-/// C16 (grammatical values): a qvalue is always accepted with its RFC value, and every accepted weight is within 0..=1000.
-pub proof fn lemma_qv_extends_rfc(s: Seq<u8>)
-    ensures /*@C16 #grammatical_qvalues_get_their_rfc_value*/ qvalue_rfc(s) matches Some(v) ==> qv_lenient(s) == Some(v) && v <= 1000,
-            qv_lenient(s) matches Some(v) ==> v <= 1000,
+/// Every qvalue is within 0..=1000.
+pub proof fn lemma_qvalue_range(s: Seq<u8>)
+    ensures qvalue_rfc(s) matches Some(v) ==> v <= 1000,
 {
     if s.len() >= 2 && s.len() <= 5 {
         let f = s.subrange(2, s.len() as int);
         if forall|i: int| 0 <= i < f.len() ==> is_digit(#[trigger] f[i]) { lemma_dec_small(f); }
-        if s.len() >= 4 && all_digits(s.subrange(3, s.len() as int)) { lemma_dec_small(s.subrange(3, s.len() as int)); }
     }
 }
 
 pub proof fn lemma_qv_shapes(s: Seq<u8>)
     ensures
-        (s =~= seq![0x31u8] || s =~= seq![0x31u8, 0x2eu8] || s =~= seq![0x31u8, 0x2eu8, 0x30u8] || s =~= seq![0x31u8, 0x2eu8, 0x30u8, 0x30u8] || s =~= seq![0x31u8, 0x2eu8, 0x30u8, 0x30u8, 0x30u8]) ==> qv_lenient(s) == Some(1000u16),
-        (s =~= seq![0x30u8] || s =~= seq![0x30u8, 0x2eu8]) ==> qv_lenient(s) == Some(0u16),
+        (s =~= seq![0x31u8] || s =~= seq![0x31u8, 0x2eu8] || s =~= seq![0x31u8, 0x2eu8, 0x30u8] || s =~= seq![0x31u8, 0x2eu8, 0x30u8, 0x30u8] || s =~= seq![0x31u8, 0x2eu8, 0x30u8, 0x30u8, 0x30u8]) ==> qvalue_rfc(s) == Some(1000u16),
+        (s =~= seq![0x30u8] || s =~= seq![0x30u8, 0x2eu8]) ==> qvalue_rfc(s) == Some(0u16),
         (!(s =~= seq![0x31u8] || s =~= seq![0x31u8, 0x2eu8] || s =~= seq![0x31u8, 0x2eu8, 0x30u8] || s =~= seq![0x31u8, 0x2eu8, 0x30u8, 0x30u8] || s =~= seq![0x31u8, 0x2eu8, 0x30u8, 0x30u8, 0x30u8])
-            && !(s =~= seq![0x30u8]) && !(s.len() >= 2 && s[0] == 0x30u8 && s[1] == 0x2eu8)) ==> qv_lenient(s) is None,
+            && !(s =~= seq![0x30u8]) && !(s.len() >= 2 && s[0] == 0x30u8 && s[1] == 0x2eu8)) ==> qvalue_rfc(s) is None,
 {
     reveal_with_fuel(dec, 2);
     if s.len() >= 2 && s.len() <= 5 && s[0] == 0x31u8 && s[1] == 0x2eu8 {
@@ -83,20 +71,22 @@ pub proof fn lemma_qv_shapes(s: Seq<u8>)
 //@fn src/lib.rs :: fn parse_qvalue props=C16 implicit=C16 rules=R41,R19,R20,R7,STD
 fn parse_qvalue(s: Str) -> (r: Result<u16, ()>)
     requires is_ascii(s.b()),
-    ensures /*@C16 #qvalue_per_rfc7231*/ r == (match qv_lenient(s.b()) { Some(v) => Ok::<u16, ()>(v), None => Err::<u16, ()>(()) }),
+    ensures /*@C16 #grammatical_qvalues_get_their_rfc_value*/ qvalue_rfc(s.b()) matches Some(v) ==> r == Ok::<u16, ()>(v),
+            /*@C16 #accepted_weights_are_within_0_1000*/ r matches Ok(q) ==> q <= 1000,
 //@body
-//@ at_start: proof { reveal_strlit("1"); reveal_strlit("1."); reveal_strlit("1.0"); reveal_strlit("1.00"); reveal_strlit("1.000"); reveal_strlit("0"); reveal_strlit("0."); lemma_qv_extends_rfc(s.b()); lemma_qv_shapes(s.b()); assert(lit("1"@) =~= seq![0x31u8]); assert(lit("1."@) =~= seq![0x31u8, 0x2eu8]); assert(lit("1.0"@) =~= seq![0x31u8, 0x2eu8, 0x30u8]); assert(lit("1.00"@) =~= seq![0x31u8, 0x2eu8, 0x30u8, 0x30u8]); assert(lit("1.000"@) =~= seq![0x31u8, 0x2eu8, 0x30u8, 0x30u8, 0x30u8]); assert(lit("0"@) =~= seq![0x30u8]); assert(lit("0."@) =~= seq![0x30u8, 0x2eu8]); if starts_with_b(s.b(), lit("0."@)) { assert(s.b().subrange(0, 2)[0] == s.b()[0]); assert(s.b().subrange(0, 2)[1] == s.b()[1]); } else if s.b().len() >= 2 && s.b()[0] == 0x30u8 && s.b()[1] == 0x2eu8 { assert(s.b().subrange(0, 2) =~= lit("0."@)); } }
+//@ at_start: proof { reveal_strlit("1"); reveal_strlit("1."); reveal_strlit("1.0"); reveal_strlit("1.00"); reveal_strlit("1.000"); reveal_strlit("0"); reveal_strlit("0."); lemma_qvalue_range(s.b()); lemma_qv_shapes(s.b()); assert(lit("1"@) =~= seq![0x31u8]); assert(lit("1."@) =~= seq![0x31u8, 0x2eu8]); assert(lit("1.0"@) =~= seq![0x31u8, 0x2eu8, 0x30u8]); assert(lit("1.00"@) =~= seq![0x31u8, 0x2eu8, 0x30u8, 0x30u8]); assert(lit("1.000"@) =~= seq![0x31u8, 0x2eu8, 0x30u8, 0x30u8, 0x30u8]); assert(lit("0"@) =~= seq![0x30u8]); assert(lit("0."@) =~= seq![0x30u8, 0x2eu8]); if starts_with_b(s.b(), lit("0."@)) { assert(s.b().subrange(0, 2)[0] == s.b()[0]); assert(s.b().subrange(0, 2)[1] == s.b()[1]); } else if s.b().len() >= 2 && s.b()[0] == 0x30u8 && s.b()[1] == 0x2eu8 { assert(s.b().subrange(0, 2) =~= lit("0."@)); } }
 //@ before "let factor = match v.len() {": proof { let f = s.b().subrange(2, s.b().len() as int); assert(v.b() =~= f); if f.len() >= 1 && f[0] == 0x2bu8 { let g = f.subrange(1, f.len() as int); assert(g =~= s.b().subrange(3, s.b().len() as int)); if g.len() <= 3 && all_digits(g) { lemma_dec_small(g); } } else if f.len() <= 3 && all_digits(f) { lemma_dec_small(f); } }
 //@end
 
 // ---- C16 oracle, written from the statement over the bytes of the header value ----
-/// One list element (the text between two commas): (coding, weight), or None if its weight is not `q=` qvalue.
+/// One list element (the text between two commas): (coding, weight), or None if its weight is not `q=` qvalue (such a header
+/// value is outside the grammar: C16 demands nothing for it).
 pub open spec fn element_b(e: Seq<u8>) -> Option<(Seq<u8>, u16)> {
     match first_at(e, 0, 0x3bu8) {
         None => Some((trim_b(e, is_ows()), 1000u16)),
         Some(p) => {
             let w = trim_b(e.subrange(p + 1, e.len() as int), is_ows());
-            if w.len() >= 2 && eq_nocase_b(w.subrange(0, 2), lit("q="@)) { match qv_lenient(w.subrange(2, w.len() as int)) { Some(v) => Some((trim_b(e.subrange(0, p), is_ows()), v)), None => None } } else { None }
+            if w.len() >= 2 && eq_nocase_b(w.subrange(0, 2), lit("q="@)) { match qvalue_rfc(w.subrange(2, w.len() as int)) { Some(v) => Some((trim_b(e.subrange(0, p), is_ows()), v)), None => None } } else { None }
         }
     }
 }
@@ -173,11 +163,13 @@ pub open spec fn prefers_gzip(p: Prefs) -> bool {
     let i: int = match p.identity { Some(q) => q as int, None => match p.star { Some(q) => q as int, None => 1 } };
     g > 0 && g >= i
 }
-pub open spec fn should_gzip_s(h: &HeaderMap) -> bool {
-    if !h.m@.dom().contains(HeaderName::ACCEPT_ENCODING) { false } else {
+/// C16: false when the header is absent (or not a string); for a grammatical value the stated preference.  A value with a
+/// weight outside the qvalue grammar is not judged (the code ignores such a header; rejecting only the element would do too).
+pub open spec fn should_gzip_ok(h: &HeaderMap, r: bool) -> bool {
+    if !h.m@.dom().contains(HeaderName::ACCEPT_ENCODING) { !r } else {
         match http::sp_to_str(h.m@[HeaderName::ACCEPT_ENCODING].bytes@) {
-            None => false,
-            Some(s) => { let es = sp_split(s, ','); match prefs(es, es.len() as int) { None => false, Some(p) => prefers_gzip(p) } }
+            None => !r,
+            Some(s) => { let es = sp_split(s, ','); match prefs(es, es.len() as int) { None => true, Some(p) => r == prefers_gzip(p) } }
         }
     }
 }
@@ -190,16 +182,16 @@ proof fn lemma_prefs_none(es: Seq<Str>, k: int, n: int)
 //@fn src/lib.rs :: fn should_gzip props=C16,C17 implicit=C16 rules=R10i,STD
 #[verifier::loop_isolation(false)]
 pub fn should_gzip(headers: &HeaderMap) -> (r: bool)
-    ensures /*@C16 #rfc7231_preference*/ r == should_gzip_s(headers),
+    ensures /*@C16 #rfc7231_preference*/ should_gzip_ok(headers, r),
 //@body
 //@ before "let mut it_ = parts;": let ghost es = sp_split(http::sp_to_str(v.bytes@).unwrap(), ','); proof { lemma_split_visible(v.bytes@, 0x2cu8); reveal_strlit("q="); reveal_strlit("Q="); lemma_q_prefix(); }
 //@ loop 1: invariant it_.rest@.len() <= es.len(), it_.rest@ =~= es.subrange(es.len() - it_.rest@.len(), es.len() as int),
-//@ | /*@C16 #inv_preferences_so_far*/ prefs(es, es.len() - it_.rest@.len()) == Some(Prefs { gzip: gzip_q, identity: identity_q, star: star_q }),
+//@ | /*@C16 #inv_preferences_so_far*/ prefs(es, es.len() - it_.rest@.len()) matches Some(p) ==> p == (Prefs { gzip: gzip_q, identity: identity_q, star: star_q }),
 //@ | decreases it_.rest@.len(),
 //@ after "loop {": let ghost k0 = es.len() - it_.rest@.len(); proof { if it_.rest@.len() > 0 { assert(it_.rest@[0] == es[k0]); } }
 //@ before "return false;": proof { assert(prefs(es, k0 + 1) is None); lemma_prefs_none(es, k0 + 1, es.len() as int); }
 //@ after "else { break };": proof { assert(qi == es[k0]); assert(it_.rest@ =~= es.subrange(k0 + 1, es.len() as int)); assert(is_visible(split_b(v.bytes@, 0x2cu8)[k0])); lemma_trim_ws_is_ows(qi.b()); lemma_first_at(qi.b(), 0, 0x3bu8);
-//@ | if let Some(p) = first_at(qi.b(), 0, 0x3bu8) { let c0 = qi.b().subrange(0, p); let q0 = qi.b().subrange(p + 1, qi.b().len() as int); lemma_trim_ws_is_ows(c0); lemma_trim_ws_is_ows(q0); lemma_qv_extends_rfc(trim_b(q0, is_ows()).subrange(2, trim_b(q0, is_ows()).len() as int)); } }
+//@ | if let Some(p) = first_at(qi.b(), 0, 0x3bu8) { let c0 = qi.b().subrange(0, p); let q0 = qi.b().subrange(p + 1, qi.b().len() as int); lemma_trim_ws_is_ows(c0); lemma_trim_ws_is_ows(q0); lemma_qvalue_range(trim_b(q0, is_ows()).subrange(2, trim_b(q0, is_ows()).len() as int)); } }
 //@end
 
 //@auto_helpers src/lib.rs
